@@ -58,8 +58,12 @@ impl HunkSpec {
     pub fn new_count(&self) -> usize { self.lines.iter().filter(|(t, _)| *t != b'-').count() }
 
     pub fn render(&self, out: &mut Vec<u8>) {
+        // GNU diff prints a count of 1 as nothing; the choice is derived from the hunk (no random draw)
+        fn range(start: u64, count: usize, salt: usize) -> String {
+            if count == 1 && (start as usize + salt) % 2 == 0 { format!("{}", start) } else { format!("{},{}", start, count) }
+        }
         out.extend_from_slice(
-            format!("@@ -{},{} +{},{} @@\n", self.old_start, self.old_count(), self.new_start, self.new_count()).as_bytes());
+            format!("@@ -{} +{} @@\n", range(self.old_start, self.old_count(), self.lines.len()), range(self.new_start, self.new_count(), self.lines.len() + 1)).as_bytes());
         for (t, l) in &self.lines {
             out.push(*t);
             out.extend_from_slice(l);
